@@ -265,10 +265,11 @@ def check(run):
     # ---- whole-pipeline correspondence + search
     n = 300 if run.tier == "thorough" else 50
     cases = [(k, c) for k, c in designed_codes()]
+    cases += C.systematic_codes()
     cases += [("structured", C.gen_code(rng)) for _ in range(n)]
     pos = C.opcode_position_codes()
     step = 1 if run.tier == "thorough" else 9
-    cases += [(k, c) for i, (k, b, c) in enumerate(pos) if k in ("target", "condition", "entry-stack") and i % step == 0]
+    cases += [(k, c) for i, (k, b, c) in enumerate(pos) if (k in ("target", "condition", "entry-stack", "middle-operand") and i % step == 0) or (k == "second-operand" and i % 3 == 0)]
     cases.append(("cancun-gap", bytes.fromhex("60005c00")))
     reqs = []
     for _, c in cases:
